@@ -644,4 +644,3 @@ package dagsync
 //@   requires ss != nil
 //@   modifies ss.err
 //@   ensures ss.err == err
-
